@@ -23,16 +23,16 @@ def ops_of(prog):
 
 def defect_class(prog, app, mode, fb, gz, cache):
     """None, or the name of a known input class:
-    D1  asynchronous io mode with full buffering: setbuf(n) while more than n bytes are buffered
-        (async_io_buf::setbuf shrinks the vector under the put area: for n = 0 the put area becomes [NULL, NULL+content)
-        - null dereference or lost data; for n > 0 the next xsputn re-grows the vector, zeroing the bytes beyond n)
+    D1  asynchronous io mode with full buffering: setbuf(n) after more than n bytes were written since the last
+        asynchronous flush (async_io_buf::setbuf shrinks the vector under the put area: for n = 0 the put area becomes
+        [NULL, NULL+content) - null dereference or lost data; for n > 0 the next xsputn into the device - a later
+        write, the rest of a raw header block, what copy_buf still holds - re-grows the vector, zeroing the bytes beyond n)
     D2  output operations after finalize(): basic_device::write toggles eof_send_, so every second device write
         after close() sends the end-of-response marker again (second chunk terminator / END_REQUEST)"""
     ops = ops_of(prog)
     asyncio = mode in ("async", "async_raw")
     full = bool(fb)
-    content = 0
-    armed = False
+    content = 0          # bytes put into the stream since the device buffer was last emptied (upper bound)
     fin = False
     after = 0
     for c, n in ops:
@@ -44,21 +44,16 @@ def defect_class(prog, app, mode, fb, gz, cache):
                     after += 1
             continue
         if c == "W" or c == "P":
-            if c == "W" and armed:
-                return "D1:async-fullbuf-setbuf-below-content"
             content += n if c == "W" else 1
         elif c == "S":
             if asyncio and full:
                 if content > n:
-                    if n == 0:
-                        return "D1:async-fullbuf-setbuf-below-content"
-                    armed = True
+                    return "D1:async-fullbuf-setbuf-below-content"
             elif content > n:
                 content = 0
         elif c == "A":
             if asyncio and app == "async":
                 content = 0
-                armed = False
             elif not (asyncio and full):
                 content = 0
         elif c == "F":
@@ -67,8 +62,7 @@ def defect_class(prog, app, mode, fb, gz, cache):
         elif c == "B":
             if asyncio:
                 if full and n == 0:
-                    armed = False     # pubsetbuf(buffer_size_) flushes what does not fit
-                    content = 0
+                    content = 0       # pubsetbuf(buffer_size_) flushes what does not fit
                 full = bool(n)
         elif c == "Z":
             fin = True
